@@ -8,14 +8,14 @@ VERIF = os.path.dirname(os.path.dirname(os.path.abspath(__file__)))
 
 
 def key(name):
-    m = re.match(r"C(\d+)-(\d+)(b?)", name)
+    m = re.match(r"C(\d+)-(\d+)([bc]?)", name)
     return (int(m.group(1)), int(m.group(2)), m.group(3))
 
 
 def main():
     rows = []
     caught = 0
-    names = sorted((n for n in os.listdir(os.path.join(VERIF, "seeded")) if re.match(r"^C\d+-\d+b?$", n)), key=key)
+    names = sorted((n for n in os.listdir(os.path.join(VERIF, "seeded")) if re.match(r"^C\d+-\d+[bc]?$", n)), key=key)
     for n in names:
         p = os.path.join(VERIF, "seeded", n, "meta.json")
         if not os.path.exists(p):
